@@ -26,10 +26,11 @@ RULE = ("random spec-level alignment records (0..4 references, refID -1, read na
         "(occasionally > 65535), qualities 0..93, optional tag bytes, random BGZF block sizes) encoded by an independent encoder; "
         "x whole read / every (small files) or sampled chunk size >= largest record / interval via BamIntervalBuffer and "
         "alignment_to_interval / {whole, every mask of five, permutations and repetitions of equal-sized records, chunk-stream} write "
-        "back / read a field, write the selection, read all fields again / eager reading (lazy=False) / count_entries / write of a chunk with replaced values (must be refused). Non-trivial = >= 2 records with "
+        "back / read a field, write the selection, read all fields again / selection programs (selections of selections, writes between "
+        "selections, reads after writes) / max_chunk_size / eager reading (lazy=False) / count_entries / write of a chunk with replaced values (must be refused). Non-trivial = >= 2 records with "
         "different name-length / CIGAR-count / sequence-parity shapes")
 EXHAUSTIVE = {"quick": False, "thorough": False}
-MODEL_OPS = {"decode", "chunked", "interval", "write", "count"}
+MODEL_OPS = {"decode", "chunked", "interval", "write", "count", "program"}
 PARALLEL = 16
 ASSUMPTIONS = ["gzip.open(...).read(n) returns min(n, remaining) bytes of the concatenated members (BGZF = gzip members)",
                "NumPy fancy indexing / .view(dtype) / ragged_slice are modelled as list slices and little-endian sums",
@@ -55,7 +56,7 @@ MANIFEST = {
             "is outside the modelled domain. Measured (16 cores, seeds 0-3): quick 15-30 s / ~3.7k cases, thorough 3-5 min / ~59k cases "
             "(every chunk size from the largest record to file size + 2 for the small files). Defects found and fixed in /repo: "
             "ebaee36 (unmapped -> last reference name; zero-reference BAM unreadable), d080e2f (uint16 wrap of n_cigar_op*4), "
-            "9afb68d (count_entries on BAM raised NameError), 4c831e1 (stale cached offsets after a selection was written). 48 audited theorems incl. a complete spec-level decoder inverting the encoder.",
+            "9afb68d (count_entries on BAM raised NameError), 4c831e1 (stale cached offsets after a selection was written). 50 audited theorems incl. a complete spec-level decoder inverting the encoder.",
     "technique": "Lean 4 proof (induction over the record list) over an executable decoder model + spec-level encoder; tables regenerated "
                  "from source (decide); differential correspondence with the implementation on independently encoded files",
     "design": "§6 C16",
@@ -229,6 +230,32 @@ def impl(c):
                 return {"n": int(bnp.count_entries(p))}
             except Exception as e:
                 return _err(e)
+        if op == "program":
+            # any sequence of selections, writes and field reads on one table; every observation is recorded
+            out = _path("out")
+            try:
+                cur = bnp.open(p).read()
+                obs = []
+                for st in c["steps"]:
+                    if st[0] == "mask":
+                        m = np.zeros(len(cur), dtype=bool)
+                        m[st[1]] = True
+                        cur = cur[m]
+                    elif st[0] == "index":
+                        cur = cur[np.array(st[1], dtype=int)]
+                    elif st[0] == "slice":
+                        cur = cur[st[1]:st[2]]
+                    elif st[0] == "write":
+                        with bnp.open(out, "w") as f:
+                            f.write(cur)
+                        raw = gzip.decompress(open(out, "rb").read())
+                        text, refs, recs, hdr_end = decode_file_bytes(raw)
+                        obs.append({"w": bhash(raw[hdr_end:]), "recs": [_full(r) for r in recs]})
+                    else:
+                        obs.append({"r": _rows(cur)})
+                return obs
+            except Exception as e:
+                return _err(e)
         if op == "write_then_read":
             out = _path("out")
             try:
@@ -274,7 +301,8 @@ def impl(c):
         if op == "chunked":
             try:
                 chunks = []
-                for i, ch in enumerate(bnp.open(p, **kw).read_chunks(min_chunk_size=c["k"])):
+                mk = {"max_chunk_size": c["max"]} if "max" in c else {}
+                for i, ch in enumerate(bnp.open(p, **kw).read_chunks(min_chunk_size=c["k"], **mk)):
                     chunks.append(_rows(ch))
                     if i > len(c["recs"]) + 2:
                         return {"err": "nonterminating"}
@@ -338,6 +366,18 @@ def oracle(c):
     body = b"".join(encode_record(r) for r in recs)
     if op == "count":
         return {"n": len(recs)}
+    if op == "program":
+        cur, obs = list(recs), []
+        for st in c["steps"]:
+            if st[0] in ("mask", "index"):
+                cur = [cur[i] for i in st[1]]
+            elif st[0] == "slice":
+                cur = cur[st[1]:st[2]]
+            elif st[0] == "write":
+                obs.append({"w": bhash(b"".join(encode_record(r) for r in cur)), "recs": [_full(dict(r, cigar=[list(x) for x in r["cigar"]])) for r in cur]})
+            else:
+                obs.append({"r": [view(refs, r) for r in cur]})
+        return obs
     if op == "write_then_read":
         idx = c["idx"] if c["sel"] != "slice" else (list(range(c["idx"][0], c["idx"][-1] + 1)) if c["idx"] else [])
         sel = [recs[i] for i in idx]
@@ -365,8 +405,16 @@ def oracle(c):
 
 
 def agree(c, got, exp):
+    if c["op"] == "program" and isinstance(got, list):
+        if len(got) != len(exp):
+            return False
+        return all((core.canon(g.get("recs")) == core.canon(e["recs"])) if "w" in e else (core.canon(g) == core.canon(e)) for g, e in zip(got, exp))
     if not isinstance(got, dict) or "err" in got:
         return False
+    if c["op"] == "program":
+        if not isinstance(got, list) or len(got) != len(exp):
+            return False
+        return all(core.canon(g.get("recs")) == core.canon(e["recs"]) if "w" in e else core.canon(g) == core.canon(e) for g, e in zip(got, exp))
     if c["op"] == "write_modified":
         # a BAM chunk with replaced values must be written with the new values or refused; never silently as it was read
         return "refused" in got or core.canon(got.get("recs")) == core.canon(exp["refused_or"])
@@ -378,7 +426,15 @@ def agree(c, got, exp):
     return core.canon(got) == core.canon(exp)
 
 
+def agree_spec(c, s, exp):
+    if c["op"] == "program":
+        return core.canon(s) == core.canon([{"w": e["w"]} if "w" in e else e for e in exp])
+    return core.canon(s) == core.canon(exp)
+
+
 def agree_model(c, got, m):
+    if c["op"] == "program":
+        return isinstance(got, list) and core.canon([{"w": g["w"]} if "w" in g else g for g in got]) == core.canon(m)
     if c["op"] == "write" and isinstance(got, dict) and "body" in got:
         return all(core.canon(got[k]) == core.canon(m.get(k)) for k in ("body", "file", "eof"))
     return core.canon(got) == core.canon(m)
@@ -416,6 +472,19 @@ def model_request(c):
     if c["op"] == "write":
         q["idx"] = _sel(c)
         q["mode"] = c["mode"]
+    if c["op"] == "program":
+        n, steps = len(c["recs"]), []
+        for st in c["steps"]:
+            if st[0] in ("mask", "index"):
+                steps.append(["select", list(st[1])])
+                n = len(st[1])
+            elif st[0] == "slice":
+                idx = list(range(n))[st[1]:st[2]]
+                steps.append(["select", idx])
+                n = len(idx)
+            else:
+                steps.append([st[0]])
+        q["steps"] = steps
     return q
 
 
@@ -460,6 +529,9 @@ def finding_key(c, got, exp):
                         return "interval:n_cigar>=16384"
                     return f"interval:{which}:wrong-" + ["chromosome", "start", "stop", "name", "score", "strand"][bad[0][1]]
                 return f"interval:{which}:wrong-count"
+    if op == "program":
+        kinds = "-".join(st[0] for st in c["steps"])
+        return "program:" + ("error:" + got["err"] if isinstance(got, dict) and "err" in got else "wrong-observation") + ":" + kinds[:60]
     if op == "write_then_read":
         if isinstance(got, dict) and got.get("written") == exp["written"]:
             return "write_then_read:selection-reads-differently-after-being-written"
@@ -666,6 +738,39 @@ def cases(tier, rng):
         sel = rng.choice(["mask", "index", "slice"])
         idx = sorted(rng.sample(range(n), rng.randrange(1, n + 1))) if sel != "index" else [rng.randrange(n) for _ in range(rng.choice([1, n, n + 1]))]
         yield dict(c, op="write_then_read", sel=sel, idx=idx, first=rng.choice(FIELDS))
+    # selection PROGRAMS: selections of selections, writes between selections, reads after writes
+    def rand_steps(n):
+        steps, obs = [], 0
+        for _ in range(rng.choice([2, 3, 3, 4, 6])):
+            kind = rng.choice(["mask", "index", "slice", "slice", "write", "write", "fields"])
+            if len(steps) == 1 and steps[0][0] in ("mask", "index") and rng.random() < 0.5:
+                kind = rng.choice(["slice", "write"])      # a selection of a selection / a selection after a write
+            if kind == "mask":
+                idx = sorted(rng.sample(range(n), rng.randrange(0, n + 1))) if n else []
+                steps.append(["mask", idx]); n = len(idx)
+            elif kind == "index":
+                idx = [rng.randrange(n) for _ in range(rng.choice([0, 1, n, n + 1]))] if n else []
+                if n and rng.random() < 0.4:
+                    idx = sorted(range(n), key=lambda i: -i)
+                steps.append(["index", idx]); n = len(idx)
+            elif kind == "slice":
+                a = rng.randrange(0, n + 1); b = rng.randrange(a, n + 1)
+                steps.append(["slice", a, b]); n = b - a
+            else:
+                steps.append([kind]); obs += 1
+        if steps[-1][0] != "write":
+            steps.append(["write"])
+        return steps
+    fixed_progs = [[["mask", [0, 1, 3, 4, 5]], ["slice", 1, 4], ["write"]], [["index", [5, 4, 3, 2, 1, 0]], ["slice", 0, 3], ["write"], ["fields"]],
+                   [["mask", [1, 3, 4]], ["write"], ["mask", [0, 2]], ["write"], ["fields"]], [["index", [4, 0, 2]], ["write"], ["index", [2, 0]], ["write"]],
+                   [["mask", [0, 2, 4]], ["write"], ["slice", 1, 3], ["write"]], [["slice", 1, 5], ["mask", [0, 3]], ["fields"], ["write"], ["slice", 1, 2], ["write"], ["fields"]],
+                   [["index", [3, 3, 1]], ["fields"], ["write"], ["index", [1, 0, 0]], ["fields"], ["write"]]]
+    for recs_ in (eq, uneq):
+        for steps in fixed_progs:
+            yield {"op": "program", "refs": two, "text": [], "recs": recs_, "blk": 4096, "eof": True, "steps": steps}
+    for _ in range(160 * f):
+        c = rand_file(rng, nrec=rng.choice([3, 4, 6, 8]))
+        yield dict(c, op="program", steps=rand_steps(len(c["recs"])))
     # eager reading (BamBuffer.get_data / BamIntervalBuffer.get_data), count_entries, writing a chunk with replaced values
     yield {"op": "count", "refs": two, "text": [], "recs": [base, unm, rv], "blk": 4096, "eof": True}
     for _ in range(40 * f):
@@ -697,6 +802,8 @@ def cases(tier, rng):
         c = rand_file(rng, nrec=rng.choice([2, 3, 4, 5, 8, 12]))
         for k in _ks(rng, c, every=False):
             yield dict(c, op="chunked", k=k)
+        k = rng.choice(_ks(rng, c, every=False))     # the documented max_chunk_size keyword, large enough never to bind
+        yield dict(c, op="chunked", k=k, max=2 * k + max_rec(c) + rng.choice([0, 1, 1000]))
     for _ in range(5 * f):     # chunk sizes below the largest record: outside the domain (oracle SKIP), model still compared
         c = rand_file(rng, nrec=3)
         if c["recs"]:
